@@ -1,4 +1,5 @@
 import Qvnt.Props.C06
+import Qvnt.Props.Code.C06
 open Qvnt
 #print axioms C06_value
 #print axioms C06_value_inside
@@ -12,3 +13,5 @@ open Qvnt
 #print axioms C06_support
 #print axioms C06_drawn_survives
 #print axioms C06_repeat
+#print axioms C06_code_measure
+#print axioms C06_code_empty
